@@ -198,6 +198,12 @@ class A:
                 self.keys[x] |= set(range(a // CH, (b - 1) // CH + 1))
         elif op == "opt":
             g.emit("opt %s" % x)
+            self.check()            # content-neutral: sharing flags must still describe what is shared (also with caller memory)
+            # … and the next edit lands in a chunk RunOptimize looked at
+            v = self.val(x)
+            g.emit("%s %s %d" % (g.r.choice(["add", "rem", "cadd", "crem"]), x, v))
+            self.keys[x].add(v // CH)
+            self.check()
         elif op == "detach":
             g.emit("detach %s" % x)
             self.taint[x] = set()
